@@ -238,6 +238,10 @@ def run(ctx, report):
         report.guard("C13.FANOUT", F.lifecycle_siblings, ctx, report, "C13.FANOUT", facts, config, EXCEPTIONS)
         report.guard("C13.FANOUT", setup_extra, ctx, report, facts, config)
         report.guard("C13.NOCLOBBER", noclobber, ctx, report, facts, config)
+        # the dispatcher a batch owns is built from the builder it was given: otherwise systems registered on that
+        # builder (its thread-local ones included) are never set up or disposed
+        from . import c07
+        report.guard("C13.BATCH", c07.assembly, ctx, report, facts, config, "C13.BATCH")
         counts = D.all_impls(ctx, report, facts, config, "C13.COMPOSE", only_kinds=("tuple",), methods=("setup",))
         report.floor("C13.COMPOSE.TUPLE", "tuple impls (setup composition)", counts["tuple"], 26, config=config)
     try:
